@@ -128,6 +128,11 @@ pub fn diff_model_ext(mem: &mut Memvid, model: &Model, ro: bool, at: &str, allow
                         out.push((vec!["C08"], "frame-tags", format!("[{at}] frame {} tags {:?}, model {:?}", f.id, fr.tags, tags)));
                     }
                 }
+                if let Some(x) = &f.extra {
+                    if &fr.extra_metadata != x {
+                        out.push((vec!["C08"], "frame-extra-metadata", format!("[{at}] frame {} extra metadata {:?}, model {:?}", f.id, fr.extra_metadata, x)));
+                    }
+                }
                 if let (Some(k), true) = (&f.kind, true) {
                     if fr.kind.as_ref() != Some(k) {
                         out.push((vec!["C08"], "frame-kind", format!("[{at}] frame {} kind {:?}, model {:?}", f.id, fr.kind, k)));
